@@ -69,6 +69,9 @@ type Dispatcher struct {
 func findDispatchers(p *Program) ([]*Dispatcher, error) {
 	var out []*Dispatcher
 	for _, call := range selectRouteInvokes(p) {
+		if delegatingSelector(p, topFunc(call.Parent())) {
+			continue // a wrapper around another selector: it dispatches nothing
+		}
 		// pass-through helper: `return c.router.SelectRoute(...)` - the dispatchers are its callers
 		if g := call.Parent(); g.Parent() == nil && passesThroughP(p, g, call) {
 			n := 0
